@@ -145,6 +145,39 @@ pub fn minimise_world(check: &str, v: &Violation, secs: u64) -> Violation {
       set_text(&mut w, "schema", &(lines.join("\n") + "\n"));
     }
   }
+  // structure of a JSON document: replace it by one of its sub-values, or drop one element / member
+  if let Some(j) = get_text(&w, "json") {
+    if let Ok(mut doc) = serde_json::from_str::<serde_json::Value>(&j) {
+      // its own budget: the schema passes may have used up theirs
+      let mut budget = Budget::new(120, secs.max(30));
+      let mut progress = true;
+      while progress && budget.steps > 0 {
+        progress = false;
+        let mut cands: Vec<serde_json::Value> = Vec::new();
+        match &doc {
+          serde_json::Value::Array(a) => cands.extend(a.iter().cloned()),
+          serde_json::Value::Object(o) => cands.extend(o.values().cloned()),
+          _ => {}
+        }
+        cands.extend(json_shrinks(&doc));
+        cands.truncate(300);
+        for c in cands {
+          if budget.steps == 0 {
+            break;
+          }
+          budget.steps -= 1;
+          let mut x = w.clone();
+          set_text(&mut x, "json", &c.to_string());
+          if same_failure(check, &x, &class, &sig, wd) {
+            w = x;
+            doc = c;
+            progress = true;
+            break;
+          }
+        }
+      }
+    }
+  }
   // characters of short documents
   for key in ["json", "csv"] {
     if let Some(s) = get_text(&w, key) {
@@ -564,4 +597,41 @@ pub fn pre_key(v: &Violation) -> String {
 
 pub fn world_size(v: &Violation) -> usize {
   World::from_json(&v.world).size()
+}
+
+/// Every document obtained from `v` by removing one array element or one object member, at any depth.
+pub fn json_shrinks(v: &serde_json::Value) -> Vec<serde_json::Value> {
+  let mut out = Vec::new();
+  match v {
+    serde_json::Value::Array(a) => {
+      for i in 0..a.len() {
+        let mut b = a.clone();
+        b.remove(i);
+        out.push(serde_json::Value::Array(b));
+      }
+      for (i, e) in a.iter().enumerate() {
+        for s in json_shrinks(e) {
+          let mut b = a.clone();
+          b[i] = s;
+          out.push(serde_json::Value::Array(b));
+        }
+      }
+    }
+    serde_json::Value::Object(o) => {
+      for k in o.keys() {
+        let mut b = o.clone();
+        b.remove(k);
+        out.push(serde_json::Value::Object(b));
+      }
+      for (k, e) in o.iter() {
+        for s in json_shrinks(e) {
+          let mut b = o.clone();
+          b.insert(k.clone(), s);
+          out.push(serde_json::Value::Object(b));
+        }
+      }
+    }
+    _ => {}
+  }
+  out
 }
